@@ -291,7 +291,7 @@ structure InitTrack where
 structure Sample where
   dur : Int
   off : Int
-  payloadOK : Bool            -- the payload decoder of the track's codec accepts the bytes
+  bad : List String := []     -- mediacommon payload decoders (`GetAV1`, `GetH264`, `GetH265`) that reject the bytes
   pid : Nat
   deriving DecidableEq, Repr
 
@@ -308,6 +308,7 @@ structure Proc where
   track : Nat                 -- index in the OnTracks list
   clockRate : Int
   hasDecoder : Bool           -- `decodePayload != nil`
+  decoder : String := ""      -- which mediacommon function it calls (`fmp4DecoderOf`)
   deriving DecidableEq, Repr
 
 structure FStream where
@@ -370,6 +371,12 @@ def procInitialize (F : Flags) (codec : Option String) : Res Bool :=
     else if F.initializeDefaultErrors then .error .unsupportedCodec else .ok false
   | none => if F.initializeDefaultErrors then .error .unsupportedCodec else .ok false
 
+/-- the mediacommon function the `decodePayload` of a codec kind calls -/
+def decoderOf (codec : Option String) : String :=
+  match codec with
+  | some c => (fmp4DecoderOf.lookup c).getD ""
+  | none => ""
+
 /-- the loop `for i, track := range p.clientStreamTracks { … p.trackProcessors[p.init.Tracks[i].ID] = trackProc }`.
     `its` is `p.init.Tracks[i:]`: indexing `p.init.Tracks[i]` with `i` running in lockstep with the range loop is taking
     the head of that suffix, and it panics exactly when the suffix is empty. A later equal id overrides an earlier
@@ -380,7 +387,8 @@ def buildProcs (F : Flags) : Nat → List InitTrack → List Track → List (Int
     let dec ← procInitialize F t.codec
     match its with
     | [] => .panic .index
-    | it :: its' => buildProcs F (gidx + 1) its' rest ((it.id, { track := gidx, clockRate := t.clockRate, hasDecoder := dec }) :: acc)
+    | it :: its' =>
+      buildProcs F (gidx + 1) its' rest ((it.id, { track := gidx, clockRate := t.clockRate, hasDecoder := dec, decoder := decoderOf t.codec }) :: acc)
 
 /-- `initializeTrackProcessors` -/
 def fmp4InitProcs (F : Flags) (s : FStream) (c : ClientSt) (lpt : PartTrack) : Res (ClientSt × List (Int × Proc)) := do
@@ -407,7 +415,7 @@ def fmp4Process (F : Flags) (elapsed : Int) (pr : Proc) (entryDts : Int) (entryN
   | dts, s :: rest =>
     if (!pr.hasDecoder && F.processChecksNilDecoder) = true then .error .unsupportedCodec
     else if (!pr.hasDecoder) = true then .panic .nilFunc
-    else if (!s.payloadOK) = true then .error .sampleDecode
+    else if (s.bad.contains pr.decoder) = true then .error .sampleDecode
     else do
       let pts := dts + s.off
       let _ntp ← (match entryNtp with
